@@ -157,8 +157,8 @@ def scan_loop(extra=(), extra_ens=()):
 
 
 all_members_stopped = Fn('src/types.rs', 'all_members_stopped', impl='Job', ret='r',
-    ensures=[('C06.all_stopped_def', 'r == (forall|i: int| 0 <= i < self.pids@.len() ==> self.pids_stopped@.contains(#[trigger] self.pids@[i]))')],
-    loops={0: Loop(invariant=[('C06.inv.all_stopped', 'forall|i: int| 0 <= i < __i0 ==> self.pids_stopped@.contains(#[trigger] self.pids@[i])')])})
+    ensures=[('C06+C07.all_stopped_def', 'r == (forall|i: int| 0 <= i < self.pids@.len() ==> self.pids_stopped@.contains(#[trigger] self.pids@[i]))')],
+    loops={0: Loop(invariant=[('C06+C07.inv.all_stopped', 'forall|i: int| 0 <= i < __i0 ==> self.pids_stopped@.contains(#[trigger] self.pids@[i])')])})
 all_members_running = Fn('src/types.rs', 'all_members_running', impl='Job', ret='r',
     ensures=[('C06.all_running_def', 'r == (self.pids_stopped@.len() == 0)')])
 
